@@ -334,3 +334,36 @@ func VerifTTLSubSecond() {
 	c.Stop()
 	zzverif.Cover("ttl_subsecond_done")
 }
+
+// Two cleanups with a re-Set in between: Set k (symbolic TTL), time passes, Cleanup, Set k again (another TTL), time
+// passes, Cleanup, Get - the second Cleanup judges k by its CURRENT entry only: a live k is still there, an expired
+// one is gone, and a second key that was never touched after its Set survives while it is live. (A fixed shape with
+// symbolic TTLs and advances: the operation-sequence harness reaches this length only in the thorough tier.)
+//
+//verif:harness prop=C15 name=ttl_cleanup_twice threads=2 sched=delay preempt=0 unwind=12 witness=lenient solver=cvc5
+func VerifTTLCleanupTwice() {
+	vStore = nil
+	start := zzverif.TimeFromNanos(1_000_000_000_000)
+	clk := zzverifstubs.NewClock(start)
+	c := NewCache[int](CacheOptions{clock: clk, CleanupInterval: time.Hour})
+	t1, t2 := zzverif.Int64("ttl1"), zzverif.Int64("ttl2")
+	zzverif.Assume(t1 >= 1 && t1 <= 100 && t2 >= 1 && t2 <= 100)
+	d1, d2 := zzverif.Int64("advance1_s"), zzverif.Int64("advance2_s")
+	zzverif.Assume(d1 >= 0 && d1 <= 200 && d2 >= 0 && d2 <= 200)
+	c.Set("k", 1, t1)
+	c.Set("other", 9, 1000)
+	clk.Advance(time.Duration(d1) * time.Second)
+	c.Cleanup()
+	c.Set("k", 2, t2)
+	clk.Advance(time.Duration(d2) * time.Second)
+	c.Cleanup()
+	got, ok := c.Get("k")
+	zzverif.Assert(ok == (d2 < t2), "get_hit_iff_latest_set_still_live")
+	if ok {
+		zzverif.Assert(got == 2, "get_returns_latest_value")
+	}
+	_, ok2 := c.Get("other")
+	zzverif.Assert(ok2, "untouched_live_entry_survives_cleanup")
+	c.Stop()
+	zzverif.Cover("ttl_cleanup_twice_done")
+}
